@@ -63,6 +63,9 @@ FORCED = [
     [("pop3", ["DELE 3", "QUIT"]), ("INBOX", ["EXPUNGE"]), ("INBOX", ["UID COPY 3:5 other"])],
     [("pop3", ["DELE 1", "DELE 3", "QUIT"]), ("INBOX", ["UID STORE 1:* -FLAGS (\\Deleted)"]), ("INBOX", ["UID FETCH 1:* (FLAGS BODY.PEEK[HEADER.FIELDS (X-CID)] BODY.PEEK[])"])],
     [("INBOX", ["UID STORE 1:* -FLAGS (\\Deleted)", "UID MOVE 1,3 other"]), ("INBOX", ["UID COPY 1:5 other"]), ("INBOX", ["UID FETCH 1:* (FLAGS BODY.PEEK[HEADER.FIELDS (X-CID)] BODY.PEEK[])"])],
+    # POP3 reads its snapshot while IMAP removes messages
+    [("pop3", ["RETR 5", "RETR 3", "QUIT"]), ("INBOX", ["EXPUNGE"])],
+    [("pop3", ["TOP 4 1", "RETR 5", "RETR 1"]), ("INBOX", ["UID MOVE 1:2 other"]), ("INBOX", ["UID FETCH 3:5 (FLAGS BODY.PEEK[HEADER.FIELDS (X-CID)])"])],
     # POP3 QUIT with marks while IMAP works on INBOX
     [("pop3", ["DELE 1", "DELE 3", "QUIT"]), ("INBOX", ["UID COPY 1:5 other"]), ("INBOX", ["EXPUNGE"])],
     [("pop3", ["DELE 2", "QUIT"]), ("INBOX", ["UID MOVE 1:3 other"])],
@@ -101,6 +104,19 @@ async def setup_state(rig):
 
 def msg_for_append(k, i):
     return (f"From: a@b\r\nSubject: appended\r\nX-CID: new{k}x{i}\r\n\r\nbody new{k}x{i}\r\n").encode()
+
+
+def pop3_outcome(c, rep):
+    """Normalised outcome of a POP3 command: status, and for RETR/TOP which
+    message (content id) the reply carries."""
+    if rep is None:
+        return ("NOREPLY",)
+    if not rep.ok:
+        return ("-ERR",)
+    if c.split()[0].upper() in ("RETR", "TOP"):
+        m = re.search(rb"X-CID:\s*(\S+)", rep.body or b"")
+        return ("+OK", m.group(1).decode() if m else None)
+    return ("+OK",)
 
 
 def norm_outcome(text, r, uidmap):
@@ -202,7 +218,7 @@ async def run_session(rig, idx, where, cmds, k, results, uidmap, order_log):
                     await loop.run_in_executor(None, int)
             rep = await p.cmd(c)
             order_log.append((idx, c))
-            outs.append(("+OK" if rep is not None and rep.ok else ("-ERR" if rep is not None else "NOREPLY"),))
+            outs.append(pop3_outcome(c, rep))
         results[idx] = outs
         return
     s = rig.sessions_by_idx[idx]
@@ -291,7 +307,7 @@ async def one_run(loop, ctx, cmdset, mode, order=None):
                     if idx not in pop3:
                         pop3[idx] = rig.pop3(f"P{idx}")
                     rep = await pop3[idx].cmd(c)
-                    outs[idx].append(("+OK" if rep is not None and rep.ok else ("-ERR" if rep is not None else "NOREPLY"),))
+                    outs[idx].append(pop3_outcome(c, rep))
                     continue
                 s = rig.sessions_by_idx[idx]
                 if c.startswith("APPEND "):
